@@ -47,21 +47,26 @@ type WatchAct struct {
 }
 
 type FakeServer struct {
-	mu          sync.Mutex
-	tr          *Tracer
-	rv          int
-	objs        map[string]MObj
-	hist        []histEv
-	watches     map[*fakeWatch]bool
-	lists       []ListAct
-	watchs      []WatchAct
-	defWatch    WatchAct
-	nList       int
-	nWatch      int
-	extra       []runtime.Object // foreign objects mixed into lists (typed scenarios)
-	listTimes   []time.Time
-	inFlight    int
-	maxInFlight int
+	mu               sync.Mutex
+	tr               *Tracer
+	rv               int
+	objs             map[string]MObj
+	hist             []histEv
+	watches          map[*fakeWatch]bool
+	lists            []ListAct
+	watchs           []WatchAct
+	defWatch         WatchAct
+	nList            int
+	nWatch           int
+	extra            []runtime.Object // foreign objects mixed into lists (typed scenarios)
+	listTimes        []time.Time
+	inFlight         int
+	nListRet         int
+	lastMut          time.Time
+	lastHealthyFloor time.Time
+	healthyAt        time.Time // when the last Watch call with a fully healthy script connected
+	Converged        bool
+	maxInFlight      int
 }
 
 func NewFakeServer(tr *Tracer) *FakeServer {
@@ -85,6 +90,7 @@ func (s *FakeServer) apply(t watch.EventType, k string, l int) MObj {
 		s.objs[k] = o
 	}
 	s.hist = append(s.hist, histEv{s.rv, t, o})
+	s.lastMut = time.Now()
 	s.tr.LogRaw("srv", "srv.mut", fmt.Sprintf(`"wt":%q,"o":{"k":%q,"v":%d,"l":%d},"rv":%d`, string(t), o.K, o.V, o.L, s.rv))
 	ws := make([]*fakeWatch, 0, len(s.watches))
 	for w := range s.watches {
@@ -146,7 +152,7 @@ func (s *FakeServer) LogSnapshot() {
 	s.mu.Lock()
 	rv, l := s.snapshot()
 	s.mu.Unlock()
-	s.tr.LogRaw("srv", "srv.snapshot", fmt.Sprintf(`"rv":%d,"list":%s`, rv, listJSONObjs(l)))
+	s.tr.LogRaw("srv", "srv.snapshot", fmt.Sprintf(`"rv":%d,"list":%s,"converged":%v`, rv, listJSONObjs(l), s.Converged))
 }
 
 func listJSONObjs(l []MObj) string {
@@ -212,6 +218,7 @@ func (s *FakeServer) List(ctx context.Context, opts metav1.ListOptions) (runtime
 	extra := s.extra
 	// logged while the snapshot is taken: the list content is fixed here
 	s.tr.LogRaw("srv", "srv.listret", fmt.Sprintf(`"n":%d,"fail":%q,"rv":%d,"list":%s`, idx, act.Fail, rv, listJSONObjs(snap)))
+	s.nListRet++
 	s.mu.Unlock()
 
 	switch act.Fail {
@@ -246,16 +253,17 @@ func (s *FakeServer) List(ctx context.Context, opts metav1.ListOptions) (runtime
 // ---- client.WatchClient
 
 type fakeWatch struct {
-	s      *FakeServer
-	idx    int
-	act    WatchAct
-	ch     chan watch.Event
-	stop   chan struct{}
-	kickch chan struct{}
-	once   sync.Once
-	next   int // next history rv to deliver is > next
-	sent   int
-	ctx    context.Context
+	s         *FakeServer
+	idx       int
+	act       WatchAct
+	ch        chan watch.Event
+	stop      chan struct{}
+	kickch    chan struct{}
+	once      sync.Once
+	next      int // next history rv to deliver is > next
+	sent      int
+	delivered int // highest history version handed to the stream (guarded by s.mu)
+	ctx       context.Context
 }
 
 func (s *FakeServer) Watch(ctx context.Context, opts metav1.ListOptions) (watch.Interface, error) {
@@ -287,7 +295,12 @@ func (s *FakeServer) Watch(ctx context.Context, opts metav1.ListOptions) (watch.
 		<-ctx.Done()
 		return nil, ctx.Err()
 	}
-	w := &fakeWatch{s: s, idx: idx, act: act, ch: make(chan watch.Event), stop: make(chan struct{}), kickch: make(chan struct{}, 1), next: from - act.FromOlder, ctx: ctx}
+	if act.CloseAfter == 0 && !act.Mute && len(act.DropAt) == 0 && act.FromOlder == 0 && !hasFatalInject(act.Inject) {
+		s.healthyAt = time.Now()
+	} else {
+		s.lastHealthyFloor = time.Now().Add(time.Nanosecond)
+	}
+	w := &fakeWatch{s: s, idx: idx, act: act, ch: make(chan watch.Event), stop: make(chan struct{}), kickch: make(chan struct{}, 1), next: from - act.FromOlder, ctx: ctx, delivered: from}
 	s.watches[w] = true
 	s.mu.Unlock()
 	go w.hw_pump()
@@ -379,6 +392,9 @@ func (w *fakeWatch) hw_pump() {
 			}
 			frame++
 			w.sent++
+			w.s.mu.Lock()
+			w.delivered = ev.RV
+			w.s.mu.Unlock()
 			if w.act.CloseAfter > 0 && w.sent >= w.act.CloseAfter {
 				w.closeStream()
 				return
@@ -411,6 +427,27 @@ func (w *fakeWatch) sendSpecial(kind string) bool {
 		return w.send(watch.Event{Type: watch.Modified, Object: &metav1.List{}}, desc)
 	}
 	return true
+}
+
+func hasFatalInject(m map[int]string) bool {
+	for _, k := range m {
+		if k == "nilobj" || k == "nonobj" {
+			return true
+		}
+	}
+	return false
+}
+
+// HealthyWatchConnected: some connected stream has sent the whole history (so the cache must be current).
+func (s *FakeServer) HealthyWatchConnected() bool {
+	s.mu.Lock()
+	defer s.mu.Unlock()
+	for w := range s.watches {
+		if !w.act.Mute && len(w.act.DropAt) == 0 && w.delivered >= s.rv {
+			return true
+		}
+	}
+	return false
 }
 
 // Stats for C13.
